@@ -132,10 +132,13 @@ def run_case(c, binding, inputs):
     except Exception as e:
         return {"status": "error", "why": f"binding: {e!r}"}
 
+    schedule = eval(inputs.get("__schedule__", "[]"))
+
     def fresh():
         ns = dict(base)
+        base["spec"].nondet.reset(schedule)
         for k, expr in inputs.items():
-            if k in binding:
+            if k in binding or k.startswith("__"):
                 continue
             ns[k] = eval(expr, ns)
         for stmt in getattr(c, "setup", ()):
@@ -161,6 +164,7 @@ def run_case(c, binding, inputs):
             if o[0] != "ret" or not o[1]:
                 why.append(f"ensures#{i} `{e}`: {show(o)}")
         return {"status": "fail" if why else "pass", "why": why}
+    base["spec"].nondet.reset(schedule)
     real = outcome(c.call, ns_real)
     rec["real"] = show(real)
     if getattr(c, "raises_only", None) is not None and real[0] == "exc":
@@ -170,6 +174,7 @@ def run_case(c, binding, inputs):
     if real[0] == "hang":
         why.append("real call did not terminate")
     if c.ref:
+        base["spec"].nondet.reset(schedule)
         ref = outcome(c.ref, ns_ref)
         rec["ref"] = show(ref)
         if ref[0] == "hang":
@@ -202,6 +207,12 @@ def run_case(c, binding, inputs):
             o = outcome(e, ns_real)
             if o[0] != "ret" or not o[1]:
                 why.append(f"ensures#{i} `{e}`: {show(o)}")
+    elif real[0] == "exc":
+        ns_real["exc"] = real[1]
+        for i, e in enumerate(getattr(c, "ensures_exc", ())):
+            o = outcome(e, ns_real)
+            if o[0] != "ret" or not o[1]:
+                why.append(f"ensures-exc#{i} `{e}`: {show(o)}")
     return {"status": "fail" if why else "pass", "why": why, **rec}
 
 
@@ -227,6 +238,9 @@ def cmd_sample(cid, binding_json, seed, count, known_skip="[]"):
     xcheck = []
     for n in range(int(count)):
         inputs = {k: p.sample(rng) for k, p in c.params.items()}
+        if getattr(c, "nondet", False):
+            inputs["__schedule__"] = repr([rng.choice([0, 0, 0, 1, 2, 3, 5, 255, 256, 10**6]) if rng.random() < 0.5
+                                           else rng.randint(0, 300) for _ in range(rng.randint(0, 60))])
         v = run_case(c, binding, inputs)
         if v["status"] == "precondition-false":
             skipped += 1
